@@ -110,3 +110,15 @@ Theorem C12_oracle_seq_sound : forall lo hi s vs,
   c12_ok_seq (Z.of_nat (length vs)) nrej total bars = true.
 Proof. exact HdrOracleProofs.c12_oracle_seq_sound. Qed.
 Print Assumptions C12_oracle_seq_sound.
+
+(* 10. RecordValues(v, k) is k times RecordValue(v): same acceptance, same total, the same counts everywhere
+       (the harness records runs of equal neighbours either way) *)
+From FV.Proofs Require HdrRuns.
+Theorem C12_record_values_is_repeated_record_value : forall h v k,
+  (HdrRuns.in_range h v = true ->
+     exists hv hk, record_values h v (Z.of_nat k) = Some hv /\ HdrRuns.record_times h v k = Some hk /\
+       h_cfg hk = h_cfg hv /\ h_total hk = h_total hv /\ forall j, h_counts hk j = h_counts hv j) /\
+  (HdrRuns.in_range h v = false ->
+     record_values h v (Z.of_nat (S k)) = None /\ HdrRuns.record_times h v (S k) = None).
+Proof. exact HdrRuns.record_values_is_repeated. Qed.
+Print Assumptions C12_record_values_is_repeated_record_value.
